@@ -197,6 +197,13 @@ class Equation:
         # Separate the tensors into terms
         output, inputs = self.program.get_equation().get_iter(tensors)
 
+        # Leader-follower intersection passes the leader's fiber first, so its
+        # payload also comes first
+        leader = self.__get_leader(rank)
+        if leader is not None:
+            for term in inputs:
+                term.sort(key=lambda tensor: tensor.root_name() != leader)
+
         payload: Payload
         if inputs:
             # Construct the term payloads
@@ -340,6 +347,24 @@ class Equation:
             return True
 
         return any(Equation.__frac_coords(arg) for arg in sexpr.args)
+
+    def __get_leader(self, rank: str) -> Optional[str]:
+        """
+        Get the leader tensor if this rank uses leader-follower intersection
+        """
+        if self.metrics is None:
+            return None
+
+        intersector = self.metrics.get_coiter(rank)
+        if not isinstance(intersector, LeaderFollowerComponent):
+            return None
+
+        einsum = self.program.get_equation().get_output().root_name()
+        for binding in intersector.get_bindings()[einsum]:
+            if binding["rank"] == rank:
+                return binding["leader"]
+
+        return None
 
     def __in_update(self, factor: str) -> bool:
         """
